@@ -892,6 +892,14 @@ impl<'tcx> Cx<'tcx> {
                 o.set("k", s("discr"));
                 let pj = self.place(body, pl);
                 o.set("pl", pj);
+                // number of variants of the enum whose discriminant is read (lets the rules turn the `otherwise` edge of a
+                // two-variant match into a positive fact)
+                let pt = pl.ty(&body.local_decls, self.tcx).ty;
+                if let ty::Adt(ad, _) = pt.kind() {
+                    if ad.is_enum() {
+                        o.set("nvariants", n(ad.variants().len()));
+                    }
+                }
             }
             Rvalue::Aggregate(ak, ops) => {
                 o.set("k", s("agg"));
